@@ -16,6 +16,7 @@
 // itype: c h u oc og ou   agg: def drop hist last sum   filter: * (none) | e (empty allow-list) | <keyhex>,<keyhex>…
 // matcher: name | ver | schema | any | prefix
 #include "common.h"
+#include "supervised.h"
 
 #include <algorithm>
 #include <functional>
@@ -563,7 +564,7 @@ int main()
   opentelemetry::sdk::common::internal_log::GlobalLogHandler::SetLogLevel(opentelemetry::sdk::common::internal_log::LogLevel::None);
   unsetenv("OTEL_RESOURCE_ATTRIBUTES");
   unsetenv("OTEL_SERVICE_NAME");
-  return vh::run_lines([](const std::vector<std::string> &t) -> std::string {
+  return vh::run_lines_supervised([](const std::vector<std::string> &t) -> std::string {
     if (t.empty()) return "bad-op";
     if (t[0] == "val") return handle_val(t);
     if (t[0] == "mv") return handle_mv(t);
